@@ -119,6 +119,24 @@ impl Accept {
 }
 
 fn side_entries(side: u8, variant: u8) -> Vec<Spec> {
+    if variant == 6 {
+        // variant 5 with the roles swapped: the empty side initiates and pulls
+        return side_entries(1 - side, 5);
+    }
+    if variant == 5 {
+        // one side empty, the other with 130 entries under keys of 16000 bytes: everything
+        // travels in one frame of more than two megabytes
+        if side == 1 {
+            return vec![];
+        }
+        return (0..130u32)
+            .map(|i| {
+                let mut key = vec![b'h'; 16000];
+                key.extend_from_slice(format!("{i:04}").as_bytes());
+                Spec::new(0, 0, &key, 1 + (i % 3) as u64, Val::X)
+            })
+            .collect();
+    }
     if variant == 4 {
         // big sets: 400 entries of its own per side plus 50 both hold (messages of tens of
         // kilobytes, many rounds; pipes smaller than one frame make back-pressure real)
@@ -742,7 +760,7 @@ async fn scenario_fault(
     let ha = spawn_actor(&side_entries(0, variant));
     let hb = spawn_actor(&side_entries(1, variant));
     // alice <-> relay <-> bob (for the big sets the pipes are smaller than a frame)
-    let pipe = if variant == 4 { 1 << 11 } else { 1 << 20 };
+    let pipe = if variant >= 4 { 1 << 11 } else { 1 << 20 };
     let (a_end, ra_end) = tokio::io::duplex(pipe);
     let (rb_end, b_end) = tokio::io::duplex(pipe);
     let (mut a_r, mut a_w) = tokio::io::split(a_end);
@@ -1573,6 +1591,14 @@ fn run(ctx: &Ctx, report: &mut Report) {
         if ctx.mine(ordinal) {
             report.count("big_set_sessions", 1);
             one(report, Case::Transport { variant: 4, accept: Accept::Allow, fault: None }, true, ordinal);
+        }
+        // frames of more than two megabytes, pushed and pulled
+        for side in [0u8, 1] {
+            ordinal += 1;
+            if ctx.mine(ordinal) {
+                report.count("big_frame_sessions", 1);
+                one(report, Case::Fault { variant: if side == 0 { 5 } else { 6 }, side: 0, fault: None, must_fail: false }, true, ordinal);
+            }
         }
         for side in [0u8, 1] {
             for k in [0usize, 2] {
